@@ -768,3 +768,58 @@ func ones(n int) []int {
 	}
 	return s
 }
+
+// TestC03ExceptionInsteadOfColumnInfo (a plain loop, no generator: what varies is the runtime's
+// schedule): an INSERT whose input column needs the server's column description (an enum given
+// by names) is answered by an exception instead of that description - an unknown table, say.
+// Every time, the error of Do carries the server's exception with its code. The sender is parked
+// waiting for the description when the receiver gives up; what it does on waking must not replace
+// the exception (it cannot prepare its column: it never learnt the enum's definition).
+func TestC03ExceptionInsteadOfColumnInfo(t *testing.T) {
+	st := stats.G()
+	n := 20000
+	if stats.Thorough() {
+		n = 300000
+	}
+	const perConn = 200
+	var lost, closed int64
+	var firstLost string
+	for done := 0; done < n; done += perConn {
+		e := newEnv(54460)
+		for i := 1; i <= perConn; i++ {
+			e.srv.Steps = append(e.srv.Steps, itemStep(Item{Kind: "exception", Exc: []ref.Exception{{Code: 60, Name: "DB::Exception", Message: "Table default.nowhere doesn't exist"}}}, simnet.AfterQuery(i), 0, nil))
+		}
+		client, err := e.connect(context.Background(), baseOptions(54460, compModes[0]))
+		if err != nil {
+			t.Fatalf("connect: %v", err)
+		}
+		for i := 0; i < perConn; i++ {
+			if client.IsClosed() {
+				break
+			}
+			var col proto.ColEnum
+			col.Append("a")
+			col.Append("b")
+			ctx, cancel := context.WithTimeout(context.Background(), 30*time.Second)
+			err := client.Do(ctx, ch.Query{Body: "INSERT INTO nowhere VALUES", Input: proto.Input{{Name: "v", Data: &col}}})
+			cancel()
+			if !ch.IsErr(err, 60) {
+				lost++
+				if firstLost == "" {
+					firstLost = fmt.Sprint(err)
+				}
+			}
+			if client.IsClosed() {
+				closed++
+			}
+			st.Case(stats.Hash("c03exc", done, i), true, nil)
+		}
+		_ = client.Close()
+		e.conn.ForceClose()
+	}
+	st.Sample(map[string]any{"kind": "exception-instead-of-column-info", "queries": n, "exception_lost": lost, "client_closed_after_exception": closed})
+	if lost > 0 {
+		p := st.Violate("exception-lost-on-insert", fmt.Sprintf("%d of %d INSERTs answered by exception 60 returned an error without it, e.g. %s", lost, n, firstLost), []byte(firstLost))
+		t.Fatalf("%d of %d INSERTs answered by a server exception (code 60) instead of the column description returned an error that does not carry the exception, e.g. %q (replay %s)", lost, n, firstLost, p)
+	}
+}
